@@ -711,6 +711,8 @@ class BuiltinCalls:
                 if n is None:
                     return e
                 I.hook("fold", node, "max" if is_max else "min", s, n)
+                if n.const is not None and s.length.lo >= 1:
+                    return n  # every element is the same constant
                 return replace(n, sym=None, const=None)
         else:
             vals = [a for a in args if not isinstance(a, tuple)]
